@@ -941,7 +941,7 @@ var Prop = &harness.Prop{
 		if full {
 			rdepth = 5
 		}
-		u = append(u, gmReconnectUnit(cbc, rdepth), gmReconnectUnit(gcm, rdepth))
+		u = append(u, gmReconnectUnit(cbc, rdepth), gmReconnectUnit(gcm, rdepth), autoReconnectUnit(rdepth))
 		for _, capacity := range []int{1, 2} {
 			u = append(u, reconnectUnit(0x0303, capacity, rdepth), reconnectUnit(0x0301, capacity, rdepth-1), reconnectUnit(0, capacity, rdepth-1))
 		}
